@@ -442,6 +442,40 @@ def extract(X, repo):
                         continue
                     under = id(n) in locked_nodes or (mod == "__init__" and f.name in protected)
                     engine_calls.append(("%s.%s:%s.%s" % (mod, f.name, recv, n.func.attr), under))
+    # ---- behavioural twins of the two ownership facts: when the statements are written differently, measure what they do
+    FRESH_NULL = "{'null': {}} if null is SQL_NULL else null"
+    if empty_dict != "fresh" or null_slot != FRESH_NULL:
+        try:
+            import mo_sql_parsing as M
+            from mo_sql_parsing import utils as U
+            if empty_dict != "fresh":
+                M.parse("select 1")                     # installs the per-call globals scrub reads
+                probe = {}
+                r1, r2 = U.scrub(probe), U.scrub(probe)
+                if isinstance(r1, dict) and not r1 and r1 is not probe and r1 is not r2:
+                    empty_dict = "fresh"
+            if null_slot != FRESH_NULL:
+                def nulls(t, acc):
+                    if isinstance(t, dict):
+                        if t == {"null": {}}:
+                            acc.append(t)
+                            acc.append(t["null"])
+                        for v in t.values():
+                            nulls(v, acc)
+                    elif isinstance(t, list):
+                        for v in t:
+                            nulls(v, acc)
+                    return acc
+                a = nulls(M.parse("select null, f(null), coalesce(null, null, 1) from t"), [])
+                b = nulls(M.parse("select null, f(null), coalesce(null, null, 1) from t"), [])
+                ids = [id(x) for x in a + b]
+                shared = {id(M.SQL_NULL), id(M.SQL_NULL["null"])}
+                own = object()
+                c = M.parse("select null, g(null)", null=own)
+                if len(a) == 8 and len(set(ids)) == len(ids) and not (set(ids) & shared) and c == {"select": [{"value": own}, {"value": {"g": own}}]}:
+                    null_slot = FRESH_NULL
+        except Exception as e:      # noqa
+            X.problem("effects", "ownership facts could not be measured: %s" % type(e).__name__)
     X.data["effects"] = {
         "engine_calls": sorted(set(engine_calls)),
         "scrub_empty_dict": empty_dict,
